@@ -30,6 +30,14 @@ def main(tier):
             jobs.append(dict(par=dict(stack=st, seed=seed() + 141 + si, level=5), labels=s["labels"], n_model=n_model,
                              behaviours=sel, all_bits=(tier == "thorough"), flip_stride=1))
             k += 1
+    # a fixed richer archive: three files, one interleaved, contents long enough to share chunks with later block headers
+    rich = [dict(op="start", n="a", id=0), dict(op="append", id=0, len=30, src="exact", piece=1), dict(op="start", n="b", id=1),
+            dict(op="append", id=1, len=30, src="exact", piece=3), dict(op="append", id=0, len=25, src="exact", piece=4),
+            dict(op="end", id=0), dict(op="end", id=1), dict(op="start", n="c", id=2),
+            dict(op="append", id=2, len=90, src="exact", piece=8), dict(op="end", id=2), dict(op="finalize")]
+    for st in ("enc", "comp+enc"):
+        jobs.append(dict(par=dict(stack=st, seed=seed() + 149, level=5), labels=rich, n_model=n_model,
+                         behaviours=behs[::7] if tier == "quick" else behs, all_bits=(tier == "thorough"), flip_stride=1))
     jobs.append(dict(par=dict(stack="enc", seed=seed() + 151), d12=True))
     # > 512 chunks: swaps at distances 1, 2, 255, 256, 257, 512 (a chunk counter truncated to a byte would collide)
     jobs.append(dict(par=dict(stack="enc", seed=seed() + 152), stride_swaps=20 * (600 if tier == "quick" else 66000)))
